@@ -133,11 +133,10 @@ class FunctionSetCollection(FunctionSet):
         assert (
             other.function_space == self.function_space
         ), """Both FunctionSets do not have the same FunctionSpace!"""
+        # a new collection: the operands keep the functions they had
         if isinstance(other, FunctionSetCollection):
-            self.collection += other.collection
-        else:
-            self.collection.append(other)
-        return self
+            return FunctionSetCollection(self.collection + other.collection)
+        return FunctionSetCollection(self.collection + [other])
 
     def __len__(self):
         return sum(len(f_s) for f_s in self.collection)
